@@ -516,7 +516,7 @@ func c06Judge(t *mon.T, d c06Desc, key func(string) string, phase string, ei, te
 
 func genC06(g *mon.G) {
 	r := gen.Rand(g.Seed)
-	cfgs := []lab.Cfg{{}, {DataPad: 9}, {IndexPad: 16}, {Sorted: true, StoreID: true}, {V1: true}, {V1: true, StoreID: true}, {DataPad: 3, IndexPad: 5, ZeroEOF: true}, {WholeCID: true}}
+	cfgs := []lab.Cfg{{}, {DataPad: 9}, {IndexPad: 16}, {Sorted: true, StoreID: true}, {V1: true}, {V1: true, StoreID: true}, {DataPad: 3, IndexPad: 5, ZeroEOF: true}, {WholeCID: true}, {V1: true, DataPad: 1024}}
 	gens := []string{"", "", "discarded", "finalized"}
 	n := g.Pick(192, 1920)
 	for i := 0; i < n; i++ {
